@@ -18,6 +18,9 @@ rule that matched spelling instead of meaning.  Nothing from /repo is executed; 
   demorgan `if a and b: X else: Y` -> `if not a or not b: Y else: X`; `not (a or b)` -> `not a and not b`
   renamefn private module-level functions renamed consistently across the package (suffix `_r`)
   methodorder runs of consecutive undecorated defs reversed (module level and class bodies)
+  splitor  `if a or b: <leaving body>` -> two ifs
+  renamecls private module-level classes renamed consistently across the package (suffix `_k`)
+  calltemp a call that is the first argument of a call hoisted into a temporary
 usage: mech_refactor.py [--props C01,C04] [--only rename,flip]"""
 import ast, copy, glob, os, shutil, sys, tempfile
 sys.path.insert(0, os.path.dirname(os.path.dirname(os.path.abspath(__file__))))
@@ -324,8 +327,67 @@ def t_methodorder(tree):
     return tree
 
 
+def t_splitor(tree):
+    """`if a or b: <body ending in return / raise / continue / break>` (no else) -> `if a: <body>` + `if b: <body>`"""
+    def visit(stmts):
+        i = 0
+        while i < len(stmts):
+            st = stmts[i]
+            if isinstance(st, ast.If) and not st.orelse and isinstance(st.test, ast.BoolOp) and isinstance(st.test.op, ast.Or) and len(st.test.values) == 2 \
+                    and isinstance(st.body[-1], (ast.Return, ast.Raise, ast.Continue, ast.Break)) and len(st.body) <= 2:
+                a, b = st.test.values
+                second = ast.copy_location(ast.If(test=b, body=copy.deepcopy(st.body), orelse=[]), st)
+                st.test = a
+                stmts.insert(i + 1, second)
+                i += 1
+            i += 1
+    return _rec_blocks(tree, visit)
+
+
+def _package_private_classes():
+    out = set()
+    for f_ in FILES:
+        tree = ast.parse(open(os.path.join("/repo/jaxtyping", f_)).read())
+        for st in tree.body:
+            if isinstance(st, ast.ClassDef) and st.name.startswith("_") and not st.name.startswith("__"):
+                out.add(st.name)
+    return out
+
+
+def t_renamecls(tree):
+    """every private module-level class of the package gets the suffix `_k`, consistently in all modules (string constants with the
+    class name -- `__qualname__`-style uses -- are left alone)"""
+    names = _package_private_classes()
+    for n in ast.walk(tree):
+        if isinstance(n, ast.Name) and n.id in names:
+            n.id += "_k"
+        elif isinstance(n, ast.Attribute) and n.attr in names:
+            n.attr += "_k"
+        elif isinstance(n, ast.ClassDef) and n.name in names and n in tree.body:
+            n.name += "_k"
+        elif isinstance(n, ast.alias) and n.name in names:
+            n.name += "_k"
+    return tree
+
+
+def t_calltemp(tree):
+    """`f(g(x), y)` as an expression statement / assignment value, first argument a call -> `argN_ = g(x)` + `f(argN_, y)`"""
+    def visit(stmts):
+        i = 0
+        while i < len(stmts):
+            st = stmts[i]
+            v = st.value if isinstance(st, (ast.Assign, ast.Expr, ast.Return)) else None
+            if isinstance(v, ast.Call) and isinstance(v.func, ast.Name) and v.args and isinstance(v.args[0], ast.Call) and not isinstance(v.args[0].func, ast.Attribute):
+                nm = f"arg{st.lineno}_"
+                stmts.insert(i, ast.copy_location(ast.Assign(targets=[ast.Name(id=nm, ctx=ast.Store())], value=v.args[0], lineno=st.lineno), st))
+                v.args[0] = ast.Name(id=nm, ctx=ast.Load())
+                i += 1
+            i += 1
+    return _rec_blocks(tree, visit)
+
+
 TRANSFORMS = {"rename": t_rename, "flip": t_flip, "copy": t_copy, "rettemp": t_rettemp, "elseret": t_elseret, "rename2": t_rename2, "nestand": t_nestand, "guard": t_guard, "testtemp": t_testtemp,
-              "noann": t_noann, "kwargs": t_kwargs, "demorgan": t_demorgan, "renamefn": t_renamefn, "methodorder": t_methodorder}
+              "noann": t_noann, "kwargs": t_kwargs, "demorgan": t_demorgan, "renamefn": t_renamefn, "methodorder": t_methodorder, "splitor": t_splitor, "renamecls": t_renamecls, "calltemp": t_calltemp}
 
 
 def variant(names, files):
